@@ -85,6 +85,8 @@ var specs = map[string]*propSpec{
 		ExpectProbes: []string{"concurrent_phases", "fragmentation_burst", "defrag_moved_records", "defrag_passes_noop", "readers_during_defrag", "handover"},
 	},
 	"C06": chainSpec("C06", "exploration"),
+	"C04": chainSpec("C04", "exploration"),
+	"C05": chainSpec("C05", "exploration"),
 }
 
 var chainComponents = map[string][]string{
